@@ -787,7 +787,7 @@ def replay_world(prop, rep, path):
 REENTRY_EPS = ["lookup", "lookup1", "lookupAll", "subscriptions", "queryAdapter", "adapter_hook", "queryMultiAdapter"]
 
 
-def reentry_stage(chk, eps, scenarios=("stale", "stale-pre", "stale-rebase", "midwalk", "shrink")):
+def reentry_stage(chk, eps, scenarios=("stale", "stale-pre", "stale-rebase", "midwalk", "shrink", "delhook", "notifyhook")):
     """the re-entrancy scenarios of the C11 executor that end in a CACHED wrong answer (an answer computed across a
     mutation must not be served afterwards): what C05 / C07 / C08 demand of the caches, beyond sequential histories"""
     from .. import core
